@@ -265,6 +265,13 @@ void ed_read_bin(ed_t a, const uint8_t *bin, size_t len) {
 
 	if (!ed_on_curve(a)) {
 		RLC_THROW(ERR_NO_VALID);
+		return;
+	}
+	/* The identity is encoded as a single zero byte only, and x = 0 is not
+	 * the odd root. */
+	if (ed_is_infty(a) || (len == RLC_FP_BYTES + 1 && bin[0] == 3 &&
+			fp_is_zero(a->x))) {
+		RLC_THROW(ERR_NO_VALID);
 	}
 }
 
